@@ -8,7 +8,7 @@ from . import frontend
 SAN = ["-fsanitize=address,undefined", "-fno-sanitize-recover=undefined", "-fno-omit-frame-pointer", "-g", "-O0", "-w"]
 
 
-def run_harness(source, cflags=(), argv=(), timeout=60, stdin=None):
+def run_harness(source, cflags=(), argv=(), timeout=60, stdin=None, ubsan_halt=True):
     """-> dict(rc, stdout, stderr, sanitizer) ; rc None when the build failed"""
     d = tempfile.mkdtemp(prefix="verif-cvc-")
     try:
@@ -21,13 +21,15 @@ def run_harness(source, cflags=(), argv=(), timeout=60, stdin=None):
         if b.returncode != 0:
             return {"rc": None, "build_error": b.stderr[-3000:], "cmd": " ".join(cmd)}
         env = dict(os.environ, ASAN_OPTIONS="detect_leaks=0:abort_on_error=0:detect_stack_use_after_return=0",
-                   UBSAN_OPTIONS="print_stacktrace=0:halt_on_error=1")
+                   UBSAN_OPTIONS="print_stacktrace=0:halt_on_error=%d" % (1 if ubsan_halt else 0))
         try:
             r = subprocess.run([exe] + [str(a) for a in argv], capture_output=True, text=True, timeout=timeout, env=env, input=stdin)
         except subprocess.TimeoutExpired:
             return {"rc": "timeout", "stdout": "", "stderr": "", "sanitizer": None, "cmd": " ".join(cmd)}
         san = None
         m = re.search(r"(AddressSanitizer: [^\n]*|runtime error: [^\n]*)", r.stderr)
+        if not ubsan_halt:
+            m = re.search(r"(AddressSanitizer: [^\n]*)", r.stderr) or m
         if m:
             san = m.group(1).replace(d, "<tmp>")
         return {"rc": r.returncode, "stdout": r.stdout, "stderr": r.stderr[-3000:].replace(d, "<tmp>"), "sanitizer": san,
